@@ -309,6 +309,40 @@ func c03Layout(c *Ctx, root *packages.Package) {
 	}
 	sort.Strings(users)
 	r.Check(len(users) == 0, "C03-f", "A.pigeon.go:single-line-layout-only-in-EOS", "", "pigeon.go", "_ (no line end, no one-line comment) is referenced by the end-of-statement rule only", fmt.Sprintf("rule(s) %v separate tokens with _ : a line end or a // comment at that place is rejected although the documented syntax allows any layout there", uniq(users)))
+	// 2a. a line break ends a rule also when it sits inside a comment: the alternative of EOS that ends a rule at a line
+	// end (it references EOL) must be able to pass over a comment that spans lines, i.e. reach the unrestricted
+	// multi-line comment rule; otherwise `A <- "a" /* x <newline> y */ <newline> B <- "b"` has no way to end rule A
+	if eos := unwrapLit(l.exprs["EOS"]); eos != nil && l.kind(eos) == "choiceExpr" {
+		nLineEnd, okLineEnd := 0, false
+		for _, alt := range l.list(eos, "alternatives") {
+			direct := map[string]bool{}
+			for _, rr := range nodesOfType(root, alt, "ruleRefExpr") {
+				if nm := l.field(rr, "name"); nm != nil {
+					direct[strings.Trim(nospace(nm), `"`)] = true
+				}
+			}
+			if !direct["EOL"] {
+				continue
+			}
+			nLineEnd++
+			all := map[string]bool{}
+			for d := range direct {
+				all[d] = true
+				for x := range reach(d) {
+					all[x] = true
+				}
+			}
+			if all["MultiLineComment"] {
+				okLineEnd = true
+			}
+		}
+		if nLineEnd == 0 {
+			r.Unk("C03-g", "A.pigeon.go:EOS:comment-spanning-lines-ends-a-rule", "", "pigeon.go", "no alternative of EOS references EOL")
+		} else {
+			r.Check(okLineEnd, "C03-g", "A.pigeon.go:EOS:comment-spanning-lines-ends-a-rule", "", "pigeon.go", "a line-end alternative of EOS reaches the multi-line comment rule",
+				"the alternative of EOS that ends a rule at a line end passes only over comments without a line break (rule _): a rule followed by a /* … */ comment that spans lines is rejected (`A <- \"a\" /* x <newline> y */ <newline> B <- \"b\"`: no match found at B), although comments are documented as layout")
+		}
+	}
 	// 2b. identifier classes: the reserved-word check (rule Identifier) is for names that become Go parameters, i.e.
 	// the labels of labelled expressions; failure labels are plain identifier names, and the throw operator and the
 	// label list of the recovery operator must lex them by the same rule (a label one of them accepts and the other
